@@ -1,9 +1,9 @@
 import CalicoVerif.Util.Proto
-import CalicoVerif.Model.CasIO
-import CalicoVerif.Model.C19
-/-! Driver for C22: same replay of the real client's backend-call log through
-`Cas.step` as C19 (claims, confirms, releases are writes of affinity and block
-cells); the ownership check of allocating writes (`own=`) is part of `step`. -/
-open CalicoVerif CalicoVerif.Cas CalicoVerif.Proto
+import CalicoVerif.Model.C22
+/-! Driver for C22: the replay of the real client's backend-call log through `Cas.step`
+(as C19) plus the claim-path call-sequence model `C22.licStep`: a confirm of a
+BlockAffinity without the block create / read-after-lost-create / block rewrite that
+must precede it in the same thread is reported (`NOLICENCE`). -/
+open CalicoVerif CalicoVerif.Proto
 
-def main : IO Unit := run (driverStep C19.chk) (St.init 0 0)
+def main : IO Unit := run C22.stepLine { cas := Cas.St.init 0 0, l := C22.Lic.init }
